@@ -44,6 +44,11 @@ F_Encodable = z3.Function('Encodable', z3.StringSort(), z3.StringSort(),
 F_Decodable = z3.Function('Decodable', z3.StringSort(), z3.StringSort(),
                           z3.BoolSort())
 F_Strip = z3.Function('StripWS', z3.StringSort(), z3.StringSort())
+# x.split(sep, 1) == [SplitHead(x, sep), SplitTail(x, sep)] when sep in x
+F_SplitHead = z3.Function('SplitHead', z3.StringSort(), z3.StringSort(),
+                          z3.StringSort())
+F_SplitTail = z3.Function('SplitTail', z3.StringSort(), z3.StringSort(),
+                          z3.StringSort())
 F_Repr = z3.Function('Repr', Val, z3.StringSort())
 
 WS_CHARS = ' \t\n\r\x0b\x0c'
